@@ -37,6 +37,10 @@ CONSTANTS
     Alphabet,     \* subset of action names
     Micro,        \* set of micro-batch counts a Train may use
     SchedArgs,    \* set of explicit scheduler step arguments (-1 = none given)
+    Strict,       \* BOOLEAN: iteration discipline of distributed training --
+                  \* passes only when no gradients are pending, everything
+                  \* else (save, load, memory query, scheduler, reset) only at
+                  \* step boundaries
     MaxDepth
 \* END-CONSTANTS
 
@@ -155,28 +159,31 @@ Rec(act, arg, extra) == h' = Append(h, [act |-> act, arg |-> arg, x |-> extra,
         obs |-> Obs(steps', fv', iv', fl', aFac', gFac')])
 
 Live == ~raised /\ Len(h) < MaxDepth
+Boundary == Strict => raw = <<>>      \* a step boundary (no pending gradients)
 
 Train(n) ==
-    /\ Live /\ "Train" \in Alphabet
+    /\ Live /\ "Train" \in Alphabet /\ Boundary
+    /\ Strict => n <= Accum
     /\ SetHS(Passes(HS, n))
     /\ UNCHANGED <<steps, fv, iv, fl, inv, ckpt, raised>>
     /\ Rec("train", n, [none |-> TRUE])
 
 FwdOnly ==
-    /\ Live /\ "FwdOnly" \in Alphabet
+    /\ Live /\ "FwdOnly" \in Alphabet /\ ~Strict
     /\ SetHS(Fwd(HS))
     /\ UNCHANGED <<steps, fv, iv, fl, inv, ckpt, raised>>
     /\ Rec("fwdonly", 0, [none |-> TRUE])
 
 EvalPass ==     \* hooks return early in eval mode; gradients are produced
-    /\ Live /\ "Eval" \in Alphabet
+    /\ Live /\ "Eval" \in Alphabet /\ Boundary
     /\ pass' = pass + 1
-    /\ raw' = <<pass + 1>>
+    /\ raw' = IF Strict THEN <<>> ELSE <<pass + 1>>   \* strict: a validation
+                  \* pass between iterations, its gradients are discarded
     /\ UNCHANGED <<kvars, ckpt, raised>>
     /\ Rec("eval", 0, [none |-> TRUE])
 
 ResetBatch ==   \* the micro-step counter is NOT cleared (as in the code)
-    /\ Live /\ "Reset" \in Alphabet
+    /\ Live /\ "Reset" \in Alphabet /\ Boundary
     /\ aAcc' = <<>> /\ gAcc' = <<>>
     /\ UNCHANGED <<steps, fv, iv, fl, mini, aFac, gFac, inv, raw, pass, ckpt,
                    raised>>
@@ -231,7 +238,7 @@ Scaled(spec, p, a) ==
          [spec EXCEPT !.v = (spec.v * f[1]) \div f[2]]     \* int() truncation
     ELSE spec
 SchedStep(arg) ==
-    /\ Live /\ "Sched" \in Alphabet /\ Sched # {}
+    /\ Live /\ "Sched" \in Alphabet /\ Sched # {} /\ Boundary
     /\ LET a == IF arg = -1 THEN steps ELSE arg IN
        /\ fv' = Scaled(fv, "factor_update_steps", a)
        /\ iv' = Scaled(iv, "inv_update_steps", a)
@@ -245,14 +252,14 @@ SchedStep(arg) ==
 
 (* ---- state_dict / load_state_dict into a FRESH preconditioner ---------- *)
 Save(inc) ==
-    /\ Live /\ "Save" \in Alphabet
+    /\ Live /\ "Save" \in Alphabet /\ Boundary
     /\ ckpt' = [has |-> TRUE, steps |-> steps, fv |-> fv, iv |-> iv,
                 fl |-> fl, inc |-> inc, aFac |-> aFac, gFac |-> gFac]
     /\ UNCHANGED <<kvars, raw, pass, raised>>
     /\ Rec("save", inc, [none |-> TRUE])
 
 Load(comp) ==
-    /\ Live /\ "Load" \in Alphabet
+    /\ Live /\ "Load" \in Alphabet /\ Boundary
     /\ ckpt.has
     /\ steps' = ckpt.steps
     /\ fv' = IF FSpec.kind = "const" THEN ckpt.fv ELSE FSpec
@@ -275,7 +282,7 @@ Load(comp) ==
     /\ Rec("load", comp, [hasInv |-> inv'.has])
 
 MemoryUsage ==
-    /\ Live /\ "Mem" \in Alphabet
+    /\ Live /\ "Mem" \in Alphabet /\ Boundary
     /\ UNCHANGED <<kvars, raw, pass, ckpt, raised>>
     /\ Rec("mem", 0, [none |-> TRUE])
 
